@@ -170,9 +170,12 @@ class PySrv(object):
     def enqueue(self, sent):
         """the server reads what the bot sent: (command, args) pairs"""
         for cmd, args in sent:
-            if cmd == 'WHO' and len(args) >= 1: self.pending.append(('w', args[0]))
-            elif cmd == 'MODE' and len(args) == 1: self.pending.append(('m', args[0]))
-            elif cmd == 'MODE' and len(args) == 2 and args[1] == '+b': self.pending.append(('b', args[0]))
+            # ext mode: the bot asks for several channels at once after a multi-target JOIN; this server answers each
+            targets = args[0].split(',') if (args and self.cfg.get('ext')) else args[:1]
+            for t in targets:
+                if cmd == 'WHO' and len(args) >= 1: self.pending.append(('w', t))
+                elif cmd == 'MODE' and len(args) == 1: self.pending.append(('m', t))
+                elif cmd == 'MODE' and len(args) == 2 and args[1] == '+b': self.pending.append(('b', t))
     def isupport(self):
         return ('M', self.cfg['server'], '005', [self.botnick(), 'CHANTYPES=' + self.cfg.get('chantypes', '#&'),
                 'CHANNELLEN=%d' % self.cfg.get('channellen', 50), 'PREFIX=(ohv)@%+', 'CHANMODES=beIq,k,l,imnpstrCR',
@@ -180,8 +183,13 @@ class PySrv(object):
     def join_args(self, names):
         return [names, '*', 'real name'] if self.cfg['extJoin'] else [names]
 
+    def valid_chan(self, c):
+        """ext mode: what is a channel is what 005 announced (CHANTYPES, CHANNELLEN); otherwise the fixed # & / 50 of the Lean Srv"""
+        if not self.cfg.get('ext'): return valid_chan(c)
+        return c[:1] != '' and c[:1] in self.cfg['chantypes'] and all((not x.isspace()) and x not in ',:\x07\x00' for x in c) \
+            and len(c) <= self.cfg['channellen']
     def enter(self, i, name):
-        if not valid_chan(name): return None
+        if not self.valid_chan(name): return None
         c = self.chan(name)
         if c is None:
             c = _Ch(name); c.members[i] = [True, False, False]; self.chans[low(name)] = c
@@ -265,7 +273,7 @@ class PySrv(object):
             if i is None: return []
             u = self.users[i]
             if i == self.bot:
-                out = []
+                out = []; names = []; bursts = []
                 for c in cs:
                     name = self.enter(i, c)
                     if name is None: continue
@@ -273,8 +281,16 @@ class PySrv(object):
                     self.modes_synced.discard(low(c)); self.bans_synced.discard(low(c))
                     self.told.add(i)
                     if self.cfg['uhnames']: self.told |= set(sc.members)
-                    out.append(('M', u.mask(), 'JOIN', self.join_args(name)))
-                    out += self.join_burst(sc)
+                    if self.cfg.get('ext'):
+                        names.append(name); bursts.append(sc)
+                    else:
+                        out.append(('M', u.mask(), 'JOIN', self.join_args(name)))
+                        out += self.join_burst(sc)
+                if names:
+                    # ext mode: ONE JOIN naming every channel entered, then topic + NAMES of each
+                    out.append(('M', u.mask(), 'JOIN', self.join_args(','.join(names))))
+                    for sc in bursts:
+                        if self.bot_in(sc): out += self.join_burst(sc)
                 return out
             vis = []
             for c in cs:
@@ -658,6 +674,7 @@ def _some_nick(r, S, p_bot=0.2, p_bad=0.08):
     n = r.choice(us)
     return casevar(r, n) if r.random() < 0.3 else n
 
+EXT_CHANS = ['+plus', '~staff', '#' + 'y' * 59, '+Plus2']
 def _some_chan(r, S, p_bad=0.08):
     x = r.random()
     if x < p_bad:
@@ -665,7 +682,7 @@ def _some_chan(r, S, p_bad=0.08):
     if S.chans and x < 0.75:
         c = r.choice(list(S.chans.values())).name
     else:
-        c = r.choice(CHANS)
+        c = r.choice(CHANS + EXT_CHANS + EXT_CHANS if S.cfg.get('ext') else CHANS)
     return casevar(r, c, keep=1) if r.random() < 0.3 else c
 
 def _bot_chan(r, S):
@@ -725,6 +742,9 @@ def gen_action(r, S, findings=False):
         n = r.choice(free) if free and r.random() < 0.9 else r.choice(NICKS + ['bad nick', 'x!y'])
         return ('connect', casevar(r, n) if r.random() < 0.2 else n, r.choice(IDENTS), r.choice(HOSTS))
     botchans = [c for c in S.chans.values() if S.bot in c.members]
+    if S.cfg.get('ext') and r.random() < (0.5 if len(botchans) < 2 else 0.04):
+        # the bot enters several channels with one JOIN
+        return ('join', S.botnick(), [_some_chan(r, S, 0.0) for _ in range(r.choice([2, 2, 3]))])
     if S.pending and r.random() < 0.35:
         return ('serve',)
     if S.open_batch is not None and r.random() < 0.2:
@@ -873,7 +893,7 @@ def gen_rawseq(r, cfg, length):
 # ------------------------------------------------------------------------------------------
 # one history on the implementation
 # ------------------------------------------------------------------------------------------
-KINDS = ('valid', 'valid', 'valid', 'valid', 'nomp', 'findings', 'hostile', 'rawseq')
+KINDS = ('valid', 'valid', 'valid', 'valid', 'nomp', 'findings', 'hostile', 'rawseq', 'ext')
 
 def run_history(real, cfg, script, check=True):
     """script: list of ('act', action) / ('msg', (pfx, cmd, args)).  Returns (impl_lines, oracle_failures, tags, nmsgs)
@@ -927,8 +947,16 @@ def gen_script(r, kind, length):
     cfg = gen_cfg(r, kind)
     if kind == 'rawseq':
         return cfg, [('msg', m) for m in gen_rawseq(r, cfg, length)]
+    if kind == 'ext':
+        # a server the Lean Srv does not cover (implementation + oracle only): channels are what its 005 says
+        # (other CHANTYPES, CHANNELLEN above 50), a multi-target JOIN of the bot is announced in one message
+        cfg['ext'] = True
+        cfg['chantypes'] = r.choice(['#&+~', '#&+', '#&~+!'])
+        cfg['channellen'] = r.choice([64, 200])
     S = PySrv(cfg)
     script = []
+    if kind == 'ext':
+        S.step(('isupport',)); script.append(('act', ('isupport',))); length -= 1
     nickmasks = []; masks = []
     fmode = r.choice(['intarg', 'extmodes']) if kind == 'findings' else False
     if fmode == 'extmodes':
@@ -1043,8 +1071,8 @@ def make_case(real, cfg, script, kind, do_shrink=True):
         c.oracle_msg = ('after %s the bot\'s view differs from the server\'s: ' % (json.dumps(small[-1][1], ensure_ascii=False),)) + '; '.join(d[:4])
         if c.input['script'] != script:
             c.impl = None       # the stored input is the shrunk one; correspondence not compared for it
-    if cfg.get('extraParamModes'):
-        c.impl = None           # a server outside the Lean Srv's mode classes: implementation + oracle only
+    if cfg.get('extraParamModes') or cfg.get('ext'):
+        c.impl = None           # a server outside the Lean Srv's mode classes / channel names: implementation + oracle only
     return c
 
 def explore(real, r, n_hist, length, offset=0):
